@@ -43,6 +43,7 @@ fn main() {
             "INCL" => incl::run(&case),
             "LOADINC" => incl::run_loadinc(&case),
             "LOAD" => load::run_load(&case),
+            "LOADCLEAN" => load::run_loadclean(&case),
             "TOKENS" => load::run_tokens(&case),
             _ => panic!("unknown case kind {kind}"),
         };
